@@ -53,6 +53,19 @@ struct HeterTupleSize <HeterTuple <Types...> >
 
 namespace internal_ {
 
+// Remove the first N types from a HeterTuple
+template <int N, typename PrototypeList_, typename Enabled = void>
+struct HeterTupleDropFront
+{
+	using Type = PrototypeList_;
+};
+
+template <int N, typename First, typename ...Others>
+struct HeterTupleDropFront <N, HeterTuple<First, Others...>, typename std::enable_if<(N > 0)>::type>
+{
+	using Type = typename HeterTupleDropFront<N - 1, HeterTuple<Others...> >::Type;
+};
+
 template <typename T>
 struct FindPrototypeDefaultArgTransformer
 {
